@@ -2,23 +2,35 @@
 import os
 
 
+def spread(path):
+    """Deterministic re-ordering of the scenario file (by a hash of the line): scenarios that run into the stage timeout (the recorded
+    finding) are generated next to each other and would otherwise all land in one shard of the executor."""
+    import hashlib
+    lines = [l for l in open(path) if l.strip()]
+    lines.sort(key=lambda l: hashlib.md5(l.encode()).hexdigest())
+    with open(path, "w") as f:
+        f.writelines(lines)
+
+
 def run(ctx):
     # the design: without Crash / Hang every session runs all its stages, whatever the order
     ctx.mc("Pipeline", "Pipeline.tla", "MC_Pipeline.cfg", workers=4)
     scen = ctx.gen("Pipeline", "Gen_Pipeline.tla", "Gen_quick.cfg", "singles", workers=8, heap="8g")
+    spread(scen)
     ctx.sample(scen, 3)
     flavour = "hooks" if ctx.quick else "asan"
     trace = ctx.execute("pipeline", scen, flavour=flavour, timeout_s=120)
     ctx.validate("Pipeline", "Trace_Pipeline.tla", "Trace_Pipeline.cfg", trace, "pipeline", flavour=flavour, parallel=12)
     if not ctx.quick:
         pairs = ctx.gen("Pipeline", "Gen_Pipeline.tla", "Gen_pairs.cfg", "pairs", workers=8, heap="12g", timeout=3000)
+        spread(pairs)
         ptrace = ctx.execute("pipeline", pairs, flavour="asan", timeout_s=120)
         ctx.validate("Pipeline", "Trace_Pipeline.tla", "Trace_Pipeline.cfg", ptrace, "pipeline", flavour="asan", parallel=12)
     n = ctx.cov["traces_validated_against_impl"]
     ctx.cov["inputs"] = n
     ctx.finish("exploration",
                "hostile documents = skeleton (valid 2.0 template, 1.0, 1.1, HTML, SVG, bare MathML, empty, declaration only, root only, random bytes, NULs, '<', the valid document cut at 6 lengths, 5000-deep XML, 5000 attributes, "
-               "60 KB text, invalid UTF-8, UTF-16) + one feature (thorough: + pairs of features of different groups from a pool of representatives): 46 numeric strings x 9 numeric sites, 10 units reference graphs x 5 users, "
+               "60 KB text, invalid UTF-8, UTF-16) + one feature (thorough: + pairs of features of different groups from a pool of representatives): 46 numeric strings x 9 numeric sites, 10 units reference graphs x 5 users + a doubling graph (every units names the next one twice; 12 and 40 levels), "
                "~110 MathML snippets x 6 placements, ~150 structural features (encapsulation, connections, imports, resets, names, interfaces, namespaces, prolog / DOCTYPE / entities, trailing content); x {strict, permissive} x stage orders. "
                "Every document goes through parse and then validate, print, queries (hasImports / isDefined / units relations / equivalences), clone, repair (fixVariableInterfaces, linkUnits, clean), annotate, resolveImports, flattenModel, "
                "analyseModel, C and Python generation, print again; TLC steps the session state machine with every Call / Return and reports a crash, an uncaught exception, a timeout (120 s), "
